@@ -192,7 +192,12 @@ impl ast::Stanza {
         let node = mat
             .nodes_for_capture_index(self.full_match_file_capture_index as u32)
             .next()
-            .expect("missing capture for full match");
+            .ok_or_else(|| {
+                ExecutionError::UndefinedCapture(format!(
+                    "for the full match of the stanza at {}",
+                    self.range.start
+                ))
+            })?;
         debug!("match {:?} at {}", node, self.range.start);
         trace!("{{");
         for statement in &self.statements {
@@ -274,7 +279,9 @@ impl ast::CreateGraphNode {
                 .mat
                 .nodes_for_capture_index(exec.full_match_file_capture_index as u32)
                 .next()
-                .expect("missing capture for full match");
+                .ok_or_else(|| {
+                    ExecutionError::UndefinedCapture(format!("for the full match in {}", self))
+                })?;
             let syn_node = exec.graph.add_syntax_node(match_node);
             exec.graph[graph_node]
                 .attributes
@@ -662,6 +669,19 @@ impl ast::SetComprehension {
 
 impl ast::Capture {
     fn evaluate_lazy(&self, exec: &mut ExecutionContext) -> Result<LazyValue, ExecutionError> {
+        // tree-sitter can report a match without a node for a capture it declares as required
+        if self.quantifier == tree_sitter::CaptureQuantifier::One
+            && exec
+                .mat
+                .nodes_for_capture_index(self.file_capture_index as u32)
+                .next()
+                .is_none()
+        {
+            return Err(ExecutionError::UndefinedCapture(format!(
+                "{} at {}",
+                self, self.location
+            )));
+        }
         Ok(Value::from_nodes(
             exec.graph,
             exec.mat
